@@ -610,8 +610,44 @@ def _k4_memo(run, prog, cm):
         tested = {}
         for f in C.methods.values():
             sn = f.params[0] if f.params else None
+            # locals holding the memo: v = self.X | getattr(self, "X", None)
+            holds = {}
+            for node in ast.walk(f.node):
+                if isinstance(node, ast.Assign) and len(node.targets) == 1 and \
+                        isinstance(node.targets[0], ast.Name):
+                    v = node.value
+                    if isinstance(v, ast.Attribute) and isinstance(v.value, ast.Name) \
+                            and v.value.id == sn:
+                        holds.setdefault(node.targets[0].id, []).append(v.attr)
+                    elif isinstance(v, ast.Call) and isinstance(v.func, ast.Name) and \
+                            v.func.id == "getattr" and len(v.args) == 3 and \
+                            isinstance(v.args[0], ast.Name) and v.args[0].id == sn and \
+                            isinstance(v.args[1], ast.Constant) and \
+                            isinstance(v.args[1].value, str) and \
+                            isinstance(v.args[2], ast.Constant) and \
+                            v.args[2].value is None:
+                        holds.setdefault(node.targets[0].id, []).append(v.args[1].value)
+                    else:
+                        holds.setdefault(node.targets[0].id, []).append(None)
             for node in ast.walk(f.node):
                 if isinstance(node, ast.If):
+                    t = node.test
+                    if isinstance(t, ast.Compare) and len(t.ops) == 1 and \
+                            isinstance(t.ops[0], (ast.Is, ast.IsNot)) and \
+                            isinstance(t.comparators[0], ast.Constant) and \
+                            t.comparators[0].value is None and \
+                            isinstance(t.left, ast.Name) and \
+                            holds.get(t.left.id) and holds[t.left.id][0] is not None:
+                        # `v = <memo>; if v is None: v = compute(); self.X = v`
+                        tested.setdefault(mangle(C.name, holds[t.left.id][0]), f)
+                    if isinstance(t, ast.UnaryOp) and isinstance(t.op, ast.Not):
+                        t = t.operand
+                    if isinstance(t, ast.Call) and isinstance(t.func, ast.Name) and \
+                            t.func.id == "hasattr" and len(t.args) == 2 and \
+                            isinstance(t.args[0], ast.Name) and t.args[0].id == sn and \
+                            isinstance(t.args[1], ast.Constant) and \
+                            isinstance(t.args[1].value, str):
+                        tested.setdefault(mangle(C.name, t.args[1].value), f)
                     t = node.test
                     if isinstance(t, ast.Compare) and len(t.ops) == 1 and \
                             isinstance(t.ops[0], (ast.Is, ast.IsNot)) and \
@@ -627,7 +663,10 @@ def _k4_memo(run, prog, cm):
             for f in C.methods.values():
                 if f.name == "__init__" or f.kind != "method":
                     continue
-                t = prog.tree(f, C, {})
+                try:
+                    t = prog.tree(f, C, {})
+                except AnalysisError:
+                    continue        # dispatch on a run-time string: not a producer
                 own = [e for e in iter_events(t, into_calls=False)
                        if e.kind == "write" and e.cell == cell
                        and e.info.get("how") in ("rebind",)]
@@ -646,10 +685,18 @@ def _k4_memo(run, prog, cm):
                     for a in acts:
                         if a is f:
                             continue
-                        ta = prog.tree(a, D, {})
+                        try:
+                            ta = prog.tree(a, D, {})
+                        except AnalysisError as ex:
+                            run.unknowns.append(f"K4 memo {cell}: entry {a.qualname} "
+                                                f"not analysed ({str(ex)[:80]})")
+                            continue
                         wr = {}
                         for e in iter_events(ta):
-                            if e.kind in ("write", "assign"):
+                            # the producer's own (guarded) fill is not a reset:
+                            # it is skipped exactly when the memo is stale
+                            if e.kind in ("write", "assign") and not (
+                                    e.cell == cell and e.func is f):
                                 wr.setdefault(e.cell, e)
                         hit = sorted((src & set(wr)))
                         if not hit:
